@@ -106,6 +106,34 @@ func (c *Ctx) ruleUnsetNil(rule string) {
 				"Validate and Serialize refuse a disabled property that is in use; a non-pointer field always holds a value, so every value of a struct with a disabled property - including what Unserialize just returned - is refused")
 		}
 	}
+	// what the presence function hands out is read with Interface(); reflection refuses that for an unexported field
+	// (with a panic), so every path on which a field value is handed out must have found CanInterface() true
+	for _, fn := range c.M.SortedFuncs(c.scopePkg("schema")) {
+		if !isPresenceFunction(fn) {
+			continue
+		}
+		k := key(rule, c.M.Key(fn), "a field value is handed out only if reflection may read it")
+		est := func(cond core.Cond) bool {
+			call, ok := cond.V.(*ssa.Call)
+			return ok && cond.True && reflectValueMethod(call) == "CanInterface"
+		}
+		hold := core.MustHold(fn, est)
+		bad := ""
+		for _, r := range core.ReturnsOf(fn) {
+			if core.IsNilConst(core.RetVal(r, 0)) {
+				continue
+			}
+			if !hold[r.Block()] {
+				bad = c.M.InstrPos(r)
+			}
+		}
+		if bad == "" {
+			c.R.Ok(rule, k, c.M.Pos(fn.Pos()), "presence of a struct-mapped property", "every return that hands out the field value is reached only after CanInterface() was found true")
+		} else {
+			c.R.Bad(rule, k, bad, "the value of an unexported field can be handed out",
+				"the constructors accept a struct whose mapped field is unexported; Validate and Serialize then call Interface() on it and panic ('cannot return value obtained from unexported field') where Unserialize returns an error")
+		}
+	}
 	if n == 0 {
 		c.R.Unresolved(rule, "the function that decides whether a struct-mapped property is set")
 	}
@@ -114,7 +142,7 @@ func (c *Ctx) ruleUnsetNil(rule string) {
 // isPresenceFunction: returns *reflect.Value and looks a field up through a reflect.StructField descriptor.
 func isPresenceFunction(fn *ssa.Function) bool {
 	res := fn.Signature.Results()
-	if res.Len() != 1 {
+	if res.Len() != 1 && !(res.Len() == 2 && core.IsErrorType(res.At(1).Type())) {
 		return false
 	}
 	p, ok := res.At(0).Type().(*types.Pointer)
